@@ -459,6 +459,10 @@ impl<P: Payload> PeerCrypto<P> {
         self.init.as_ref().map(|i| i.stage())
     }
 
+    pub fn verif_init_retries(&self) -> Option<usize> {
+        self.init.as_ref().map(|i| i.verif_failed_retries())
+    }
+
     pub fn verif_core(&self) -> Option<&CryptoCore> {
         self.core.as_ref()
     }
